@@ -136,6 +136,7 @@ class Scenario:
     interrupt_at: int | None = None
     keeper_max_keep: int | None = None
     loop_quantum: float = 0.25        # timed mode: virtual duration of one loop delay
+    prelaunch: bool = False           # run a short first launch() and start the scenario from its final state
     budget: int = 20000
 
     @staticmethod
@@ -188,6 +189,7 @@ class Harness:
         self.save_cond_calls = 0
         self.control_thread = None
         self.threads_by_status: dict[int, str] = {}
+        self.in_prelaunch = False
 
     # ---- role resolution -----------------------------------------------------------------------
     @staticmethod
@@ -247,6 +249,15 @@ class Harness:
     # ---- the scripted web client (runs as the logical thread `webapi`) ----------------------------
     def client_main(self, app: Any) -> None:
         s = self.sched
+        if self.in_prelaunch:
+            # the preparatory launch: let it run a little, then shut it down; the thread ends
+            for _ in range(6):
+                s.point("client_next", "prelaunch")
+            while True:
+                s.point("client_next", "POST /api/shutdown")
+                status, _body = self.asgi_request(app, "POST", "/api/shutdown")
+                if status == 200:
+                    return
         for req in self.sc.client:
             if req[0] == "delay":
                 s.sleep(float(req[1]), "client_delay")
@@ -305,9 +316,10 @@ class Harness:
         s = self.sched
         fake_threading = _FakeThreadingModule(s, self)
         self._patch(tc, "threading", fake_threading)
-        self._patch(tc, "ThreadPoolExecutor",
-                    lambda max_workers=None, **kw: FakeExecutor(s, self.name_thread_target, max_workers))
-        if hasattr(tc, "time"):       # polling helper of the repaired pause protocol
+        if hasattr(tc, "ThreadPoolExecutor"):
+            self._patch(tc, "ThreadPoolExecutor",
+                        lambda max_workers=None, **kw: FakeExecutor(s, self.name_thread_target, max_workers))
+        if getattr(getattr(tc, "time", None), "__name__", "") == "time":   # a stdlib `time` import
             self._patch(tc, "time", _FakeStdlibTime(s, self.sc.loop_quantum if self.sc.timed else 0.0))
         self._patch(tbase, "threading", fake_threading)
         self._patch(tbase, "time", _FakeTimeModule(s, self.sc.loop_quantum if self.sc.timed else 0.0))
@@ -470,7 +482,25 @@ class Harness:
                     s.log("savecond", "", True)
                 return bool(v)
 
+            saved_state_path = None
+            if sc.prelaunch:
+                self.in_prelaunch = True
+                launch(comps["interaction"], {}, {"buf": SequentialBuffer(8)}, comps["trainers"],
+                       LaunchConfig(states_dir=self.tmp / "states", web_api_address=("localhost", 8391),
+                                    web_api_command_queue_size=1,
+                                    max_attempts_to_pause_all_threads=sc.max_attempts))
+                self.in_prelaunch = False
+                saved_state_path = sorted((self.tmp / "states").glob("*.state"))[-1]
+                # forget the preparatory run: fresh components, fresh trace
+                del s.events[:]
+                del s.times[:]
+                self.saves.clear()
+                self.cb_counts.clear()
+                self.threads_by_status.clear()
+                comps = build_components(self)
+                s.log("prelaunch_done", str(saved_state_path.name))
             cfg = LaunchConfig(
+                saved_state_path=saved_state_path,
                 states_dir=self.tmp / "states", save_state_condition=save_cond,
                 states_keeper=keeper, timeout_for_all_threads_pause=sc.pause_timeout,
                 max_attempts_to_pause_all_threads=sc.max_attempts, max_uptime=sc.max_uptime,
@@ -602,6 +632,7 @@ def build_components(H: Harness) -> dict:
         def load_state(self, path: Path) -> None:
             with H.cb(self.name, "load"):
                 self.steps = int((path / "steps").read_text())
+                H.sched.log("loaded_steps", self.name, self.steps)
             super().load_state(path)
 
     class RecEnv(Environment):
@@ -643,7 +674,8 @@ def build_components(H: Harness) -> dict:
 
         def load_state(self, path: Path) -> None:
             with H.cb("env", "load"):
-                pass
+                o, a = (path / "counts").read_text().split(",")
+                self.observed, self.affected = int(o), int(a)
 
     class RecTrainer(Trainer):
         def __init__(self, name: str, conditioned: bool) -> None:
